@@ -128,6 +128,38 @@ def judge_format(acc, f):
             for nm, o in (('ctor', c2), ('resize', c3), ('ctor_upper', c4), ('resize_mixed', c5)):
                 if fmt_of(o) != f or o.dtype != spell_fxp(f, True) or o.vdtype != complex:
                     bad('parse_complex', '%s with dtype=%r gives %s (vdtype %r)' % (nm, spell_fxp(f, True), o.dtype, o.vdtype), route=nm)
+            # the complex dtype string combined with like= / a class-level template that is REAL: the string decides
+            ref_r = Fxp(None, not f.signed, 9, 2)
+            ref_c = Fxp(0j, not f.signed, 9, 2)
+            c6 = Fxp(None, like=ref_r, dtype=spell_fxp(f, True))
+            c7 = Fxp(None, like=ref_c, dtype=spell_fxp(f, True))
+            r6 = Fxp(None, like=ref_r, dtype=spell_fxp(f))
+            Fxp.template = ref_r
+            try:
+                c8 = Fxp(None, dtype=spell_fxp(f, True))
+                r8 = Fxp(None, dtype=spell_fxp(f))
+            finally:
+                Fxp.template = None
+            acc.transitions += 5
+            acc.evaluations += 5
+            for nm, o, cx in (('like_real', c6, True), ('like_complex', c7, True), ('template_real', c8, True), ('like_real_realstr', r6, False),
+                              ('template_real_realstr', r8, False)):
+                if fmt_of(o) != f or o.dtype != spell_fxp(f, cx) or (o.vdtype == complex) != cx:
+                    bad('parse_complex', '%s with dtype=%r gives %s (vdtype %r)' % (nm, spell_fxp(f, cx), o.dtype, o.vdtype), route=nm)
+            # history: rendered, then the value becomes complex (and real again) without any resize, rendered again
+            hq = Fxp(0.0, f.signed, f.n_word, f.n_frac)
+            first = (hq.get_dtype('fxp'), hq.get_dtype('Q'), hq.get_dtype(), hq.dtype)
+            hq.set_val(0j)
+            second = (hq.get_dtype('fxp'), hq.get_dtype(), hq.dtype)
+            hq.set_val(0.0)
+            third = (hq.get_dtype('fxp'), hq.get_dtype('Q'), hq.get_dtype(), hq.dtype)
+            hq(0j)
+            fourth = (hq.get_dtype('fxp'), hq.dtype)
+            acc.transitions += 12
+            acc.evaluations += 4
+            exp1 = (spell_fxp(f), spell_q(f), spell_fxp(f), spell_fxp(f))
+            if first != exp1 or second != (spell_fxp(f, True),) * 3 or third != exp1 or fourth != (spell_fxp(f, True),) * 2:
+                bad('complex_history', 'render / store complex / render / store real / render: %r %r %r %r' % (first, second, third, fourth))
         # fxp_sum(dtype=): the public route into utils.get_sizes_from_dtype
         if f.n_word <= 52 or f.n_word in (64, 100, 256):
             for cplx in (False, True):
